@@ -60,7 +60,7 @@ structure Node where
   applied : Nat := 0          -- progress of readCommitFromRaft
   sc : Nat := 0               -- SnapShotter.CommittedIndex
   flag : Bool := true         -- SnapShotter.RaftFlag == 1
-  hasSnp : Bool := false      -- the shard knows the SnapShotter (set by the first replicated write of this life)
+  hasSnp : List Nat := []     -- the shards that know the SnapShotter (each learns it with its first replicated write of this life)
   pending : List (Nat × Nat) := []   -- DataCommittedC: (propose seq, ghost writer uid)
   nextSeq : Nat := 0
   replayQ : List Nat := []    -- entries read back by RaftNode.replay that readReplayForReplication has not applied yet
@@ -282,11 +282,11 @@ structure ApplyRes where
 /-- dealCommitData for entry `e` (index `i`) on node `n` -/
 def applyEnt (bounds : List Nat) (x : Node) (e : Ent) (n i : Nat) (fail : Bool) : ApplyRes :=
   match e.cmd with
-  | .write .. =>
+  | .write _ _ sh =>
     let ack := ackFor x e n (!fail)
     let x := { x with pending := if e.prop = n ∧ e.ptag = lifeTag x.life then x.pending.filter (fun q => q.1 ≠ e.pseq) else x.pending }
     if fail then ⟨x, ack, false⟩
-    else ⟨{ x with mem := x.mem ++ [i], hasSnp := true }, ack, true⟩
+    else ⟨{ x with mem := x.mem ++ [i], hasSnp := if x.hasSnp.contains sh then x.hasSnp else sh :: x.hasSnp }, ack, true⟩
   | .clear idx => ⟨{ x with first := delBefore x bounds (clearIndex idx x.snapIdx) }, none, false⟩
   | .noop => ⟨x, none, false⟩
 
@@ -310,12 +310,13 @@ def doApply (s : State) (n : Nat) (fail : Bool) (upd : Bool) : Option State :=
 
 /-- tsstoreImpl.writeSnapshot up to the table switch (and, in the code as it was, the signal) -/
 def flushBeginNode (clog : List Ent) (x : Node) (sh : Nat) : Node :=
+  let knows := x.hasSnp.contains sh
   let moved := x.mem.filter (fun i => shardOf clog i == sh)
-  let x := { x with imm := x.imm ++ [(sh, x.hasSnp, moved)], mem := x.mem.filter (fun i => shardOf clog i != sh), gI := x.applied }
-  -- `if s.SnapShotter != nil { RaftFlag = 0 }`
-  let x := if x.hasSnp then { x with flag := false } else x
+  let x := { x with imm := x.imm ++ [(sh, knows, moved)], mem := x.mem.filter (fun i => shardOf clog i != sh), gI := x.applied }
+  -- `if snapShotter != nil { RaftFlag = 0 }`
+  let x := if knows then { x with flag := false } else x
   -- code as it was: signal (and flag back to 1) right after the table switch
-  if x.hasSnp && !snapSignalAfterCommit then { x with snapIdx := snapTo x x.sc, flag := true } else x
+  if knows && !snapSignalAfterCommit then { x with snapIdx := snapTo x x.sc, flag := true } else x
 
 def doFlushBegin (s : State) (n : Nat) (sh : Nat) : Option State :=
   match s.nodes[n]? with
@@ -326,7 +327,7 @@ def doFlushBegin (s : State) (n : Nat) (sh : Nat) : Option State :=
 /-- commitSnapshot (files durable), then the signal through the SnapShotter seen at the start -/
 def flushEndNode (x : Node) (sh : Nat) (t : Nat × Bool × List Nat) : Node :=
   let x := { x with files := x.files ++ t.2.2, imm := x.imm.filter (·.1 != sh), gF := x.gI }
-  let sig := if snpCapturedOnce then t.2.1 else x.hasSnp
+  let sig := if snpCapturedOnce then t.2.1 else x.hasSnp.contains sh
   if sig && snapSignalAfterCommit then { x with snapIdx := snapTo x x.sc, flag := true } else x
 
 def doFlushEnd (s : State) (n : Nat) (sh : Nat) : Option State :=
@@ -366,7 +367,7 @@ def doTruncBySize (s : State) (n : Nat) : Option State :=
   | none => none
 
 def killNode (x : Node) : Node :=
-  { x with up := false, imm := [], mem := [], pending := [], hasSnp := false, flag := true, replayQ := [] }
+  { x with up := false, imm := [], mem := [], pending := [], hasSnp := [], flag := true, replayQ := [] }
 
 def doKill (s : State) (n : Nat) : Option State :=
   match s.nodes[n]? with
@@ -385,28 +386,33 @@ def restartNode (clog : List Ent) (bounds : List Nat) (x : Node) : Node :=
   let replayed := if r.1 < x.first || r.2 > x.last + 1 then []   -- ErrCompacted / ErrUnavailable: logged, nothing replayed
     else (idxRange r.1 r.2).filter (fun i => isWrite clog i && !inHole x.holes i)
   { x with up := true, life := x.life + 1, pub := x.hsCommit, applied := x.hsCommit, sc := x.snapIdx,
-           flag := true, hasSnp := false, pending := [], nextSeq := 0, imm := [], mem := replayed, replayQ := [] }
+           flag := true, hasSnp := [], pending := [], nextSeq := 0, imm := [], mem := replayed, replayQ := [] }
 
 def doRestart (s : State) (n : Nat) : Option State :=
   match s.nodes[n]? with
   | some x => if !x.up then some (setNode s n (restartNode s.clog s.bounds x)) else none
   | none => none
 
-/-- startRaftNode starts the commit loop (`go readCommitFromRaft`) before the caller applies the
-replayed entries (`readReplayForReplication`): entries committed meanwhile may be applied first -/
+/-- the code as it was: startRaftNode started the commit loop (`go readCommitFromRaft`) before the
+caller applied the replayed entries (`readReplayForReplication`): entries committed meanwhile could be
+applied first. Disabled when the regenerated `commitLoopAfterReplay` holds. -/
 def restartNodeLate (clog : List Ent) (bounds : List Nat) (x : Node) : Node :=
   let y := restartNode clog bounds x
   { y with mem := [], replayQ := y.mem }
 
 def doRestartLate (s : State) (n : Nat) : Option State :=
-  match s.nodes[n]? with
-  | some x => if !x.up then some (setNode s n (restartNodeLate s.clog s.bounds x)) else none
-  | none => none
+  if commitLoopAfterReplay then none   -- the commit loop waits for the replay: `restart` is the whole story
+  else
+    match s.nodes[n]? with
+    | some x => if !x.up then some (setNode s n (restartNodeLate s.clog s.bounds x)) else none
+    | none => none
 
 def doReplayLate (s : State) (n : Nat) : Option State :=
-  match s.nodes[n]? with
-  | some x => if x.up then some (setNode s n { x with mem := x.mem ++ x.replayQ, replayQ := [] }) else none
-  | none => none
+  if commitLoopAfterReplay then none
+  else
+    match s.nodes[n]? with
+    | some x => if x.up then some (setNode s n { x with mem := x.mem ++ x.replayQ, replayQ := [] }) else none
+    | none => none
 
 def doRaftLead (s : State) (l : Nat) : Option State :=
   match s.nodes[l]? with
